@@ -48,6 +48,15 @@ def import_exo():
     os.environ["PYTHONPATH"] = src + os.pathsep + os.environ.get("PYTHONPATH", "")
     import exo  # noqa
 
+    # A z3 query of the real effect analysis can run for hours (seen: Check_IsIdempotent under add_loop).
+    # The harness bounds every query; on expiry z3 answers `unknown`, exo raises, and the attempt counts
+    # as rejected by the real code (a rejection is never a violation).  /repo itself is not touched.
+    try:
+        import z3 as _z3
+        _z3.set_param("timeout", int(os.environ.get("EXO_VERIF_Z3_TIMEOUT_MS", "20000")))
+    except Exception:
+        pass
+
     if not str(Path(exo.__file__).resolve()).startswith(str(REPO.resolve())):
         raise InfraError(f"exo imported from {exo.__file__}, expected under {REPO}")
     return exo
@@ -308,6 +317,19 @@ class Ctx:
             "known_findings_hit": [k for k, _ in self.known_hits],
         }
         cov.update(self.extra)
+        # keys the evidence schema types: keep them well-typed whatever a property module stored
+        for k in ("evaluations", "distinct_nontrivial", "states", "transitions", "traces_validated_against_impl",
+                  "obligations", "discharged", "programs", "disagreements_checked"):
+            if k in cov and not (isinstance(cov[k], int) and not isinstance(cov[k], bool)):
+                cov[k + "_detail"] = cov.pop(k)
+        for k in ("samples", "trusted_base"):
+            if k in cov and not isinstance(cov[k], list):
+                cov[k] = [cov[k]]
+        for k in ("rule", "checker_cmd", "explanation"):
+            if k in cov and not isinstance(cov[k], str):
+                cov[k] = json.dumps(cov[k], default=str)
+        if "exhaustive" in cov and not isinstance(cov["exhaustive"], bool):
+            cov["exhaustive_detail"] = cov.pop("exhaustive")
         ev = {
             "property_id": self.prop_id,
             "tier": self.tier,
